@@ -227,6 +227,30 @@ func (e *Engine) Run(prop string, ch *kernel.Chooser, st *kernel.Stats) kernel.R
 	return kernel.RunResult{}
 }
 
+// posOffset: byte offset of a 0-based (line, byte column) position, lines separated by \n; ok is false when the
+// line does not exist or the column lies beyond the end of that line (the position of its \n, or the end of the text).
+func posOffset(text string, p token.Position) (int, bool) {
+	if p.Line < 0 || p.Column < 0 {
+		return 0, false
+	}
+	start := 0
+	for l := 0; l < p.Line; l++ {
+		i := strings.IndexByte(text[start:], '\n')
+		if i < 0 {
+			return 0, false
+		}
+		start += i + 1
+	}
+	end := len(text)
+	if i := strings.IndexByte(text[start:], '\n'); i >= 0 {
+		end = start + i
+	}
+	if start+p.Column > end {
+		return 0, false
+	}
+	return start + p.Column, true
+}
+
 // ---- C12 ---------------------------------------------------------------------
 
 func (e *Engine) runC12(ch *kernel.Chooser, st *kernel.Stats) kernel.RunResult {
@@ -278,6 +302,67 @@ func (e *Engine) runC12(ch *kernel.Chooser, st *kernel.Stats) kernel.RunResult {
 	}
 	plainPB := pb
 	seen := map[string]bool{}
+	lateSwitch := ch.Bool(1, 5)
+	if lateSwitch {
+		st.Inc("probe.builder_switched_to_tolerant_between_build_and_parse")
+	}
+	var prevParser *parser.Parser
+	var prevFault Fault
+	var prevProgram *ast.Program
+	// judge: the property's oracle on what a strict parser reports for the corrupted text f
+	judge := func(f Fault, errNil bool, errs []parser.ParserError) (kind, detail string) {
+		if errNil || len(errs) == 0 {
+			return "accept", "strict-mode ParseProgram reported no error"
+		}
+		if f.LastIntact >= 0 {
+			lt := p.Toks[f.LastIntact]
+			es := errs[0].Range.Start
+			if xutil.PosLess(es, token.Position{Line: lt.Line, Column: lt.Col}) {
+				return "early", fmt.Sprintf("first error %q at %d:%d is before the last intact token %q at %d:%d", errs[0].Message, es.Line, es.Column, lt.Text, lt.Line, lt.Col)
+			}
+		}
+		return "", ""
+	}
+	// report: a failed judgement counts only when both reference parsers reject the text
+	report := func(f Fault, kind, detail string, prog *ast.Program, sigSuffix string) {
+		grej, gerr := jsref.GojaRejects(f.Text)
+		if gerr != nil {
+			st.Inc("precondition.goja_panicked")
+			return
+		}
+		if !grej {
+			st.Inc("precondition.still_valid_js")
+			return
+		}
+		if node != nil {
+			nrej, nerr := node.Rejects(f.Text)
+			if nerr != nil {
+				st.Inc("precondition.node_error")
+				return
+			}
+			if !nrej {
+				st.Inc("precondition.disagreements")
+				return
+			}
+		}
+		st.Inc("precondition.both_reject_and_xjs_wrong")
+		sig := kind + "|" + f.Ctx
+		if kind == "accept" {
+			if rc := rootCause(prog, f.Text); rc != "" {
+				sig = "accept|" + rc
+			} else {
+				sig = "accept|unclassified|" + f.Ctx
+			}
+		}
+		sig += sigSuffix
+		if seen[sig] {
+			return
+		}
+		seen[sig] = true
+		res.Violations = append(res.Violations, kernel.Violation{Property: "C12", Kind: kind, Signature: sig,
+			Detail:       fmt.Sprintf("%s fault at byte %d (%s): %s\ncorrupted text: %q\noriginal text:  %q", f.Kind, f.At, f.Ctx, detail, f.Text, p.Text),
+			Materialised: map[string]any{"program": p.Text, "fault": f}})
+	}
 	for _, f := range faults {
 		st.Inc("fault." + f.Kind)
 		if f.Kind == "trunc" {
@@ -300,68 +385,37 @@ func (e *Engine) runC12(ch *kernel.Chooser, st *kernel.Stats) kernel.RunResult {
 				st.Inc("c12.parsed_with_smart_semicolons")
 			}
 		}
+		// one run in five: the host switches the builder to tolerant mode after this parser was built and before it
+		// parses (a parser keeps the modes it was built with), and back afterwards
+		xutil.AfterBuild = nil
+		if lateSwitch {
+			sw := pb
+			xutil.AfterBuild = func() { sw.WithTolerantMode(true) }
+		}
 		o := xutil.Parse(pb, f.Text)
-		kind := ""
-		detail := ""
-		switch {
-		case o.Panic != nil:
+		xutil.AfterBuild = nil
+		if lateSwitch {
+			pb.WithTolerantMode(false)
+		}
+		// what the previous parser reports must still satisfy the property now that a later parser has run
+		if prevParser != nil {
+			if k, d := judge(prevFault, false, prevParser.Errors()); k != "" {
+				report(prevFault, k, d+" (its error list re-read after a later parser had been built and run)", prevProgram, "|reread")
+			}
+			prevParser = nil
+		}
+		if o.Panic != nil {
 			// a panic is C11's business; for C12 it is "no error reported" only if it escaped... count and skip
 			st.Inc("c12.parse_panicked")
 			continue
-		case o.Err == nil || len(o.Errors) == 0:
-			kind = "accept"
-			detail = "strict-mode ParseProgram reported no error"
-		default:
-			if f.LastIntact >= 0 {
-				lt := p.Toks[f.LastIntact]
-				es := o.Errors[0].Range.Start
-				if xutil.PosLess(es, token.Position{Line: lt.Line, Column: lt.Col}) {
-					kind = "early"
-					detail = fmt.Sprintf("first error %q at %d:%d is before the last intact token %q at %d:%d", o.Errors[0].Message, es.Line, es.Column, lt.Text, lt.Line, lt.Col)
-				}
-			}
 		}
+		kind, detail := judge(f, o.Err == nil, o.Errors)
 		if kind == "" {
 			st.Inc("c12.rejected_ok")
+			prevParser, prevFault, prevProgram = o.Parser, f, o.Program
 			continue
 		}
-		// precondition: both references reject
-		grej, gerr := jsref.GojaRejects(f.Text)
-		if gerr != nil {
-			st.Inc("precondition.goja_panicked")
-			continue
-		}
-		if !grej {
-			st.Inc("precondition.still_valid_js")
-			continue
-		}
-		if node != nil {
-			nrej, nerr := node.Rejects(f.Text)
-			if nerr != nil {
-				st.Inc("precondition.node_error")
-				continue
-			}
-			if !nrej {
-				st.Inc("precondition.disagreements")
-				continue
-			}
-		}
-		st.Inc("precondition.both_reject_and_xjs_wrong")
-		sig := kind + "|" + f.Ctx
-		if kind == "accept" {
-			if rc := rootCause(o.Program, f.Text); rc != "" {
-				sig = "accept|" + rc
-			} else {
-				sig = "accept|unclassified|" + f.Ctx
-			}
-		}
-		if seen[sig] {
-			continue
-		}
-		seen[sig] = true
-		res.Violations = append(res.Violations, kernel.Violation{Property: "C12", Kind: kind, Signature: sig,
-			Detail: fmt.Sprintf("%s fault at byte %d (%s): %s\ncorrupted text: %q\noriginal text:  %q", f.Kind, f.At, f.Ctx, detail, f.Text, p.Text),
-			Materialised: map[string]any{"program": p.Text, "fault": f}})
+		report(f, kind, detail, o.Program, "")
 	}
 	if len(p.Toks) <= 12 {
 		res.Sample = map[string]any{"program": p.Text, "faults_enumerated": len(faults), "example_fault": faults[len(faults)/2]}
@@ -831,6 +885,19 @@ func (e *Engine) checkC11(text string, m xutil.Mode, f *Fault, st *kernel.Stats,
 				add("range-not-token", "range-not-token|"+msgClass(pe.Message)+"|"+eofNote,
 					fmt.Sprintf("mode %s: error %q has range %d:%d-%d:%d which is not the range of any token of the input (end-of-input token is at %d:%d)",
 						m, pe.Message, pe.Range.Start.Line, pe.Range.Start.Column, pe.Range.End.Line, pe.Range.End.Column, toks[len(toks)-1].Start.Line, toks[len(toks)-1].Start.Column))
+				break
+			}
+		}
+		// ... and a token of the input lies inside the input: the range, read as (line, byte column) with lines
+		// separated by \n, starts no later than it ends and ends no later than the end of its line / of the text
+		// (independent of the lexer that produced the tokens above)
+		for _, pe := range o.Errors {
+			so, sok := posOffset(text, pe.Range.Start)
+			eo, eok := posOffset(text, pe.Range.End)
+			if !sok || !eok || so > eo {
+				add("range-not-token", "range-outside-input|"+msgClass(pe.Message),
+					fmt.Sprintf("mode %s: error %q has range %d:%d-%d:%d, which does not lie inside the %d-byte input (lines are separated by \\n, columns count bytes)",
+						m, pe.Message, pe.Range.Start.Line, pe.Range.Start.Column, pe.Range.End.Line, pe.Range.End.Column, len(text)))
 				break
 			}
 		}
